@@ -391,7 +391,12 @@ func VerifC15Mouse() {
 func VerifC15FocusFrames() {
 	var log []verifLogEntry
 	mk := func(id int) *verifNode { return &verifNode{id: id, log: &log} }
-	rootW, a, b, c := mk(0), mk(1), mk(2), mk(3)
+	a, b, c := mk(1), mk(2), mk(3)
+	// the application's root widget captures events (it is always first on the path, also
+	// when the frame's root surface belongs to another widget because the root delegates
+	// its Draw to a child)
+	rootC := &verifCapNode{verifNode{id: 0, log: &log}}
+	var rootW Widget = rootC
 	surf := func(w Widget, kids ...Surface) Surface {
 		s := Surface{Size: Size{Width: 3, Height: 1}, Widget: w}
 		for _, k := range kids {
@@ -408,7 +413,7 @@ func VerifC15FocusFrames() {
 	// frame 2
 	var frame2 Surface
 	var chain []int // ancestors of the focused widget in frame 2, root first, itself last
-	shape := zzverif.Choose("frame2", 4)
+	shape := zzverif.Choose("frame2", 5)
 	switch shape {
 	case 0:
 		frame2 = surf(rootW, surf(a, surf(b)))
@@ -422,6 +427,10 @@ func VerifC15FocusFrames() {
 	case 3:
 		frame2 = surf(rootW, surf(a))
 		chain = nil // B is gone
+	case 4:
+		// the root delegates: the frame is A's surface
+		frame2 = surf(a, surf(b))
+		chain = []int{0, 1, 2}
 	}
 	if focused == a {
 		chain = []int{0, 1}
@@ -433,13 +442,14 @@ func VerifC15FocusFrames() {
 		for i := 0; same && i < len(want); i++ {
 			same = log[i] == want[i]
 		}
-		zzverif.Assert(same && app.fh.focused == Widget(rootW), "vanished-widget-loses-focus-to-the-root-exactly-once")
+		zzverif.Assert(same && app.fh.focused == rootW, "vanished-widget-loses-focus-to-the-root-exactly-once")
 		chain = []int{0}
 	}
 	log = log[:0]
 	app.fh.handleEvent(app, vaxis.Key{Keycode: 'y'})
-	// no node captures or consumes here: target, then bubble through the ancestors
+	// the root captures first, nothing consumes: then target, then bubble through the ancestors
 	var want []verifLogEntry
+	want = append(want, verifLogEntry{0, 0, 0})
 	want = append(want, verifLogEntry{chain[len(chain)-1], 1, 0})
 	for i := len(chain) - 2; i >= 0; i-- {
 		want = append(want, verifLogEntry{chain[i], 2, 0})
